@@ -189,7 +189,9 @@ func mutate(t *rapid.T, a ref.Target) (ref.Target, string) {
 	case "hash-tail":
 		// a request target has no fragment part (RFC 9112 3.2): a "#" a client puts on the wire belongs to the
 		// path or the query it stands in, and the target with the tail is another resource
-		tail := rapid.SampledFrom([]string{"#v2", "#", "#/../x", "#?y=1"}).Draw(t, "tail")
+		// (no "?" and no dot-segment in the tail: in a path a "?" would start the query on the wire, and "#/../x" is
+		// the segment "#" followed by a step back - other resources than the pair model means)
+		tail := rapid.SampledFrom([]string{"#v2", "#", "#frag"}).Draw(t, "tail")
 		if b.HasQ {
 			b.Query += tail
 		} else {
